@@ -67,8 +67,10 @@ def run(ctx: Ctx):
         fc = [c for c in find_calls(g.node, "Func")]
         vt = const_str(util.canon_of(g).resolve(call_kw(fc[0], "values_type"))) if fc and call_kw(fc[0], "values_type") is not None else None
         ctx.check(vt == "numpy.zeros_like(states, dtype=numpy.float64)", "R14.b", g.key("values_type"), "numpy.zeros_like(states, dtype=numpy.float64)", f"{qn}: values_type is {vt!r}; the result must have the shape of `states` (one column per input column)", g.where())
-    T = tm.TemplateModel(sm)
-    sk = T.skeleton("templates/python.py", "method")
-    raw = sk.raw
-    i1, i2, i3 = raw.find("{shape_info}"), raw.find("{return_name} = {values_type}"), raw.find("{indent_values}")
-    ctx.check(0 <= i1 < i2 < i3, "R14.b", sk.func.key("order"), "shape_info, allocation, body", "python method template: shape_info / allocation / body are not emitted in this order", sk.func.where())
+    from sa import av as _av
+
+    sk = util.skeleton(ctx, "R14.b", "templates/python.py", "method", {"nan_to_num": _av.C(False)})
+    if sk is not None:
+        raw = sk.raw
+        i1, i2, i3 = raw.find("{shape_info}"), raw.find("{return_name} = {values_type}"), raw.find("{values}")
+        ctx.check(0 <= i1 < i2 < i3, "R14.b", sk.func.key("order"), "shape_info, allocation, body", "python method template: shape_info / allocation / body are not emitted in this order", sk.func.where())
